@@ -144,11 +144,13 @@ func RunProgram(p *Program, files []ModelFile, sels []Selector, ko KeyOrder, max
 					default:
 						return finish(c)
 					}
-					if r.Pend != nil {
-						roots = append(roots, &Slot{Null()})
-					} else {
-						roots = append(roots, r.Slot)
+					// the selected root is a value of its own, as if assigned to $
+					rv, cc := sm.copyVal(r.Val())
+					if cc != cNone {
+						m.Err = sm.Err
+						return finish(cError)
 					}
+					roots = append(roots, &Slot{rv})
 				}
 			}
 			for _, root := range roots {
